@@ -76,6 +76,9 @@ func (fx *FuncCtx) invoke(st *State, cc *ssa.CallCommon, recv Val, args []Val, r
 	}
 	var res Val
 	if rt != nil {
+		if fc.Pure {
+			fx.bumpTop(st) // even an observer may return a freshly allocated object
+		}
 		res = fx.freshVal("r$"+name, rt)
 		fx.assumeTyping(st, res)
 	}
